@@ -80,7 +80,7 @@ Vals(t) ==
     [] t.k = "map" -> {NilV("map"), [k |-> "map", m |-> <<>>]} \cup {[k |-> "map", m |-> [q \in {"k"} |-> x]] : x \in Vals(t.e)}
     [] t.k = "struct" -> {[k |-> "struct", f |-> <<x, y>>] : x \in Vals(t.f[1].t), y \in Vals(t.f[2].t)}
 
-DurText(ns) == IF ns = "1500000000" THEN "1.5s" ELSE "?"
+DurText(ns) == CASE ns = "1500000000" -> "1.5s" [] ns = "0" -> "0s" [] ns = "60000000000" -> "1m0s" [] ns = "-1" -> "-1ns" [] OTHER -> "?"
 
 \* ---------- paths on trees (named segments only) ----------
 RECURSIVE SetPath(_,_,_)
@@ -112,7 +112,7 @@ Pack(t, v) ==
     [] t.k = "map" -> N([q \in DOMAIN v.m |-> Pack(t.e, v.m[q])], <<>>)
     [] t.k = "struct" -> PackFields(t, v, 1, Empty)
 
-DefaultName(n) == CASE n = "F0" -> "f0" [] n = "F1" -> "f1" [] n = "X" -> "x" [] n = "Y" -> "y" [] OTHER -> n
+DefaultName(n) == CASE n = "F0" -> "f0" [] n = "F1" -> "f1" [] n = "F2" -> "f2" [] n = "F3" -> "f3" [] n = "X" -> "x" [] n = "Y" -> "y" [] OTHER -> n
 
 PackFields(t, v, i, acc) ==
   IF IsErr(acc) \/ i > Len(t.f) THEN acc
